@@ -463,6 +463,11 @@ type world struct {
 	sendsFailed   int32
 	sendFailArmed bool   // NS happened in this execution (an io.EOF failure has a cause)
 	notes         []viol // observations made by check() during the current step
+	knownLeak     bool   // the known, unclaimed entry leak may have happened (see perform, event D)
+	acctReported  bool   // rule (c) was reported in this execution
+	starved       bool   // rule (a) of the healthy-store oracle was violated in this execution
+	acctChecks    int    // evaluations of the white-box accounting rule
+	sendChecks    int    // evaluations of rule (a)
 }
 
 // maxExecWall: an execution normally takes 1-3 ms. The only wall-clock assumption of the check is
